@@ -108,6 +108,7 @@ NOT_APPLICABLE = {
     "C17": "parse / Display / toml round trip is str::split/trim/to_lowercase + core::fmt + toml + regex: no Verus specs, CBMC explodes per byte; level_sort/enabled on which it rests are under C02",
 }
 
+NOT_APPLICABLE["C20"] = "only DeferredNow::{new, now} (one timestamp per log call) is within reach and is verified (unit dnow, counted under C10); line assembly uses fn pointers and thread_local buffers outside both tools, the format functions are core::fmt / serde_json"
 PENDING = "not reached yet in the build (units for this property are not registered); see DESIGN.md section 5"
 
 
